@@ -53,7 +53,7 @@ PLAN = {
     "C13": {"quick": [witness(2), witness(3), native("G", 16, Q), miri("G", MQ, count=3)], "thorough": [witness(2), witness(3), native("G", 32, T, size="thorough"), miri("G", MT, count=3), tsan("G", 8, 20)]},
     "C14": {"quick": [witness(2), native("D", 12, Q), native("B", 4, Q), miri("D", MQ)], "thorough": [witness(2), native("D", 24, T), native("B", 8, T), miri("D", MT), miri("B", MT // 4)]},
     "C15": {"quick": [native("B", 16, Q), miri("B", MQ, count=3)], "thorough": [native("B", 32, T), miri("B", MT, count=3)]},
-    "C16": {"quick": [enum("I", 9, shards=3), native("D", 14, Q), miri("D", MQ)], "thorough": [enum("I", 9, shards=3), native("D", 32, T), miri("D", MT), miri("I", 3, count=3)]},
+    "C16": {"quick": [enum("I", 9, shards=3), native("D", 10, Q), native("K", 4, Q), miri("D", MQ)], "thorough": [enum("I", 9, shards=3), native("D", 24, T), native("K", 8, T), miri("D", MT), miri("I", 3, count=3), miri("K", MT // 4)]},
     "C17": {"quick": [enum("H", H_QUICK), miri("H", 8, count=2)], "thorough": [enum("H", H_THOROUGH + 600, size="thorough"), miri("H", 32, count=2)]},
     "C18": {"quick": [native("A", 6, Q), native("B", 4, Q), native("C", 4, Q), native("E", 2, Q), miri("A", MQ // 2), miri("C", MQ // 2)], "thorough": [native("A", 12, T), native("B", 8, T), native("C", 8, T), native("E", 4, T), miri("A", MT // 2), miri("C", MT // 2), tsan("A", 8, 20)]},
     "C19": {"quick": [native("K", 16, Q), miri("K", MQ)], "thorough": [native("K", 32, T), miri("K", MT)]},
@@ -84,7 +84,7 @@ RULES = {
         "C13": "family G: 2-4 client threads running random programs over the whole public API, each ending with stop() (+ witnesses W2, W3 of the known iterator findings); non-trivial iff >=3 client threads and >=4 operation kinds; " + SCHED,
         "C14": "families D and B (+ witness W2): iterator consumer on its own thread racing 1-4 producers and stop(), iterator created at a random point before stop(); non-trivial iff >=1 item was consumed while producers were still dispatching and end-of-stream was reached; " + SCHED,
         "C15": "family B with drop(DroppableStore) as the stop operation and outstanding clones used by 1-6 threads; non-trivial as C04 plus >=1 clone used after the drop; " + SCHED,
-        "C16": "family I: exhaustive enumeration of all sequences over {0,1,2} up to length 9 fed to a real SelectorSubscriber, plus family D (subscribe_with_selector on a live store); non-trivial iff the sequence/stream contains both a repeat and a change; distinct = enumeration length class or schedule fingerprint",
+        "C16": "family K (one SelectorSubscriber instance registered on two stores); family I: exhaustive enumeration of all sequences over {0,1,2} up to length 9 fed to a real SelectorSubscriber, plus family D (subscribe_with_selector on a live store); non-trivial iff the sequence/stream contains both a repeat and a change; distinct = enumeration length class or schedule fingerprint",
         "C17": "family H: both constructors x every sequence over 17 builder calls up to length 3 (quick, 10 440 builds) / 4 (thorough, 177 482) plus random length 5-8, each compared with the last-setting model and every Ok result probed (thread name, chain order, middleware order, queue bound, drop behaviour); distinct = enumeration chunk of 64 builds (see builds for the count)",
         "C18": "families A, B, C, E with a sampler thread; non-trivial iff >=2 dispatching threads and at least two of {drops, vetoes, effects, rejected dispatches} occurred; " + SCHED,
         "C19": "family K: two stores (equal or different configuration, possibly same name, shared subscriber object), interleaved clients, one stopped or dropped while the other is busy; non-trivial iff the survivor had reducer-context events or a backlog while the other was stopping; " + SCHED,
